@@ -85,6 +85,11 @@ def _states_base(tier, seed):
         real += [("FL_light", "EM", "ZM-VFNS", 3), ("F2_bottom", "NC", "FFNS4", 2), ("XSCHORUSCC_light", "CC", "ZM-VFNS", 2)]
     for (o, p, sc, pto), xr, xf in itertools.product(real, XIS, XIS):
         out.append({"t": "real", "obs": o, "process": p, "scheme": sc, "pto": pto, "xiR": xr, "xiF": xf})
+    # outputs whose operators reach nodes far from the requested x: odd / high interpolation degrees with ln(muF) keys (the splitting operator interpolates a second time),
+    # target mass corrections at large x and low Q2 (the operator lives at xi < x and on the integrals from xi to 1): the contraction runs over ALL nodes of the grid
+    real2 = [("F2_total", "NC", "ZM-VFNS", 1, "G9", 0), ("F3_total", "CC", "ZM-VFNS", 1, "D5", 0), ("F2_total", "NC", "ZM-VFNS", 1, "G9", 1), ("FL_total", "EM", "ZM-VFNS", 1, "D5", 3), ("F2_total", "EM", "ZM-VFNS", 2, "G13", 1)]
+    for (o, p, sc, pto, g, tmc), xr, xf in itertools.product(real2, [1.0, 2.0], XIS):
+        out.append({"t": "real", "obs": o, "process": p, "scheme": sc, "pto": pto, "xiR": xr, "xiF": xf, "grid": g, "tmc": tmc})
     # theory path
     fnss = [("ZM-VFNS", 3), ("FFNS", 3), ("FFNS", 4), ("FFNS", 5), ("FONLL-FFNS", 4), ("FFN0", 3), ("FONLL-FFN0", 3)]
     refs = [(0.118, 91.2, 5), (0.35, 1.65, 4), (0.25, 3.0, 3)] if tier == "thorough" else [(0.118, 91.2, 5), (0.35, 1.65, 4)]
@@ -277,10 +282,13 @@ _REAL = {}
 
 
 def _real(st):
-    keyc = (st["obs"], st["process"], st["scheme"], st["pto"])
+    keyc = (st["obs"], st["process"], st["scheme"], st["pto"], st.get("grid", "G6"), st.get("tmc", 0))
+    G = cards.GRIDS[st.get("grid", "G6")][0]
     if keyc not in _REAL:
         pts = [cards.kin(0.05, 4.0, 0.4 if st["obs"].startswith("XS") else None), cards.kin(0.3, 90.0, 0.7 if st["obs"].startswith("XS") else None)]
-        out, s = rel.try_run({"process": st["process"], "scheme": st["scheme"], "pto": st["pto"]}, {st["obs"]: pts})
+        if "grid" in st:
+            pts += [cards.kin(0.6, 2.0), cards.kin(0.8, 1.5), cards.kin(0.011, 30.0), cards.kin(0.85 * (1 - 1e-9), 5.0)]
+        out, s = rel.try_run({"process": st["process"], "scheme": st["scheme"], "pto": st["pto"], "grid": st.get("grid", "G6"), "tmc": st.get("tmc", 0)}, {st["obs"]: pts})
         _REAL[keyc] = (out, s)
     out, s = _REAL[keyc]
     if s != "ok":
@@ -301,7 +309,7 @@ def _real(st):
             if not math.isfinite(exp):
                 continue
             sc = abs(exp) + 1e-300
-            if abs(got[i]["result"] - exp) > 1e-11 * _absscale(res, pdf, a_s(mu) / (4 * math.pi), xr, xf):
+            if abs(got[i]["result"] - exp) > 1e-11 * _absscale(res, pdf, a_s(mu) / (4 * math.pi), xr, xf, G):
                 viol.append(_v(st, "contraction", f"{st['obs']} {st['process']} {st['scheme']} pto={st['pto']} point {i} xiR={xr} xiF={xf} pdf={name}: prediction {got[i]['result']:.14g}, reference contraction {exp:.14g}"))
             if exp != 0:
                 nz = True
@@ -316,7 +324,7 @@ def _real(st):
     return {"violations": viol[:2], "nontrivial": nz, "outcome": digest([keyc, xr, xf, [p["result"] for p in preds["f"]]]), "transitions": 4}
 
 
-def _absscale(res, pdf, a_s, xr, xf):
+def _absscale(res, pdf, a_s, xr, xf, G=G):
     """sum of absolute contributions (cancellation-safe scale)."""
     tot = 0.0
     muF2 = res.Q2 * xf * xf
